@@ -14,8 +14,8 @@ for o in range(8):
 add("C11.mp_withdraw_size","VH_c11_mp_withdraw_size",TBL,tc+["table/c11.go"],{"maxlen":4200},{"maxlen":66000},expect_reach=["end"],bounds="three MP (opaque family) withdrawals whose NLRI byte lengths are symbolic 2..maxlen each, extended-message symbolic")
 add("C11.mp_nexthops","VH_c11_mp_nexthops",TBL,tc+["table/c11.go"],expect_reach=["end"],bounds="two IPv6 routes with identical attributes, each with one of 2 global and {none, 2} link-local next hops (36 combinations)")
 c14=tc+["table/c14.go"]
-add("C14.roundtrip","VH_c14_roundtrip",TBL,c14,{"segs":2},{"segs":3},expect_reach=["end"],bounds="AS_PATH = optional leading confed segment (1-2 two-octet members) + segs SEQUENCE/SET segments of 1..3 symbolic 32-bit members")
-add("C14.pairs","VH_c14_pairs",TBL,c14,{"segs":2},{"segs":3},expect_reach=["end"],bounds="AS_PATH of 1..segs segments (any of the 4 types, 1..3 symbolic 16-bit members) x AS4_PATH of 1..segs segments (any type, 1..3 symbolic members)")
+add("C14.roundtrip","VH_c14_roundtrip",TBL,c14,{"segs":2,"maxn":3},{"params":{"segs":3,"maxn":2},"harness_s":3000},expect_reach=["end"],bounds="AS_PATH = optional leading confed segment (1-2 two-octet members) + segs SEQUENCE/SET segments of 1..maxn symbolic 32-bit members (quick 2 x 1..3, thorough 3 x 1..2)")
+add("C14.pairs","VH_c14_pairs",TBL,c14,{"segs":2,"maxn":3},{"params":{"segs":3,"maxn":1},"harness_s":3000},expect_reach=["end"],bounds="AS_PATH of 1..segs segments (any of the 4 types, 1..maxn symbolic 16-bit members) x AS4_PATH of 1..segs segments (any type, 1..maxn symbolic members) (quick 2 segments x 1..3 members, thorough 3 segments x 1 member)")
 add("C14.aggregator","VH_c14_aggregator",TBL,c14,expect_reach=["end"],bounds="every aggregator AS (32 bit) and address 10.0.0.x")
 add("C14.boundary255","VH_c14_boundary255",TBL,c14,{"unwind":400},{"unwind":400},expect_reach=["end"],bounds="AS_PATH SEQ(n1) SEQ(n2) + AS4_PATH SEQ(n2), n1 in 99..101, n2 in 154..156 (totals 253..257), end members symbolic")
 c10=tc+["table/c10.go","table/c14.go"]
@@ -29,7 +29,7 @@ c04=["bgp/c04.go"]
 for nm in ["attr_origin","attr_med_lp","attr_nexthop_ids","attr_aspath","attr_aggregator","attr_communities","attr_extcomm","nlri_ipv4","nlri_ipv6","nlri_labeled_vpn","update","mp","open","notification_refresh"]:
     add("C04."+nm,"VH_c04_"+nm,BGP,c04,{"unwind":200},{"unwind":200},expect_reach=["end"],merge=UM)
 add("C04.attr_unknown","VH_c04_attr_unknown",BGP,c04,{"params":{"min":250,"max":260},"unwind":400},{"params":{"min":0,"max":300},"unwind":400},expect_reach=["end"],bounds="unknown attribute whose value has symbolic length min..max (around the 255 extended-length threshold), symbolic flags")
-add("C04.fixpoint_update","VH_c04_fixpoint_update",BGP,c04,{"n":6},{"n":8},expect_reach=["end"],merge=UM,bounds="every accepted UPDATE body of up to n bytes, ADD-PATH symbolic")
+add("C04.fixpoint_update","VH_c04_fixpoint_update",BGP,c04,{"n":6},{"n":7},expect_reach=["end"],merge=UM,bounds="every accepted UPDATE body of up to n bytes, ADD-PATH symbolic")
 add("C19.rtr_nopanic","VH_c19_rtr_nopanic","pkg/packet/rtr",["rtr/c19.go"],{"n":40},{"n":64},expect_reach=["ok","end"],bounds="any PDU buffer of 0..n bytes + 8 stale bytes")
 add("C19.rtr_roundtrip","VH_c19_rtr_roundtrip","pkg/packet/rtr",["rtr/c19.go"],expect_reach=["end"],bounds="every constructible PDU: all field values symbolic; error report with 2..4-byte PDU and 0..3-byte text")
 MRT="pkg/packet/mrt"
